@@ -33,6 +33,7 @@ def correspondence(ctx):
     integ_corr.coefficient_cases(ctx, rng, ctx.n(30, 300))
     integ_corr.step_cases(ctx, rng, ctx.n(70, 500))
     integ_corr.implicit_cases(ctx, rng, ctx.n(40, 300))
+    integ_corr.constrained_cases(ctx, rng, ctx.n(18, 200))
 
 
 # ---------------------------------------------------------------------------------------
@@ -285,6 +286,10 @@ def run(ctx: common.Ctx):
         "an IntegratorError is allowed (classified and counted) except when more than 25% of the benign cases of a class raise",
         "user functions are polynomials with exact analytic derivatives",
     ]
+    from . import integ_corr
+    import sys
+
+    integ_corr.replay_corpus(ctx, sys.modules[__name__])
     correspondence(ctx)
     direct_oracles(ctx)
 
@@ -313,6 +318,35 @@ def replay(ctx, obj):  # noqa: ARG001
     return bool(fails)
 
 
-LEVEL_TEXT = "PLACEHOLDER (rewritten by the Lean-side author): direct oracles on the real integrators, see module docstring."
-LEVEL_NOTE = "PLACEHOLDER (rewritten by the Lean-side author)."
-TECHNIQUE = "PLACEHOLDER: Lean 4 theorems + reversal / input-immutability oracles on the real code"
+LEVEL_TEXT = (
+    'Lean 4 proof, for the model of integrators.py over an arbitrary field: for EVERY list of free coefficients '
+    '`deriveCoeffs` (mirror of SymmetricCompositionIntegrator.__init__) is palindromic, has length 2n+3 = len(flows) and '
+    'the flow list is palindromic (deriveCoeffs_palindrome, deriveCoeffs_length_flows, flows_palindrome); a palindromic '
+    'composition of flows that are undone by their negative time is undone by the negative step (symComp_reverse, '
+    'mkSymComp_reverse for every free list and both initial flows, leapfrog_reverse); n steps, dir *= -1, n steps returns '
+    'exactly to the start for every n, step size and direction (steps_reverse, euclidean_steps_reverse for every gradient '
+    'and metric map, gaussian_steps_reverse given orthogonal eigenvectors, non-zero frequencies, cos^2+sin^2=1 and parity). '
+    'Implicit leapfrog, implicit midpoint, constrained leapfrog (solver, projection solver, norm/tolerance as parameters): '
+    "a returning checked sub-step has executed the reversed integrator's mirrored sub-step and landed within tolerance "
+    '(gl*_checked, imStepAdj_checked, conInner_checked, solveDirect_returns); with an exact solver and exact check the step '
+    'with -eps from the result RETURNS and gives back exactly the start (glStep_reverse_exact, glSteps_reverse_exact, '
+    'imStep_reverse_exact, conStep_reverse_exact for any number of inner steps, constrained_mom_reverse / euclidean_momrev: '
+    'position reversal implies momentum reversal). Tie: exact-rational model vs real LeapfrogIntegrator / '
+    'SymmetricCompositionIntegrator (0-6 free coefficients, both initial flows) / BCSS2-4 on Euclidean and Gaussian-split '
+    'systems (4 metric types incl. implicit identities, quadratic/cubic/quartic targets), states after k steps and after '
+    "k forward-flip-k back, live coefficient lists compared exactly; implicit leapfrog / midpoint with the model's mirror of "
+    'solve_fixed_point_direct incl. raised error class; constrained leapfrog on linear constraints (all three projection '
+    'solvers, 1-3 inner steps) vs the model with the exact projection solution. Direct oracles: reversal residual for all 9 '
+    'integrator kinds x all compatible system classes (incl. Riemannian, constrained) in easy/hard/loose tiers, bitwise '
+    'input-immutability snapshots (also when step raises), cache correctness, only IntegratorError allowed.'
+)
+LEVEL_NOTE = (
+    'Trusted: Lean kernel, axioms {propext, Classical.choice, Quot.sound}; the harness, its generators and tolerances; '
+    'NumPy/LAPACK arithmetic. Assumed as hypotheses (hold for the real functions / documented solver contract): cos/sin '
+    'identities; Q orthogonal; exact solver `solve f x = ok y -> f y = y` and exact check for the *_reverse_exact theorems; '
+    'projection solver of the form Phi2(t) o Pi(lambda) for euclidean_momrev. NOT proved: the chained n-step reversal bound '
+    'with non-zero tolerances (needs Lipschitz data of user functions; statement kept as glStep_reverse_partial comment) - '
+    'measured by the direct oracle instead. Rounding is outside the theorems (model is exact; compared at 1e-9 relative). '
+    'Object aliasing (`state.copy()`) is observed by the harness, not modelled.'
+)
+TECHNIQUE = 'Lean 4 theorems (list induction, Except-monad case analysis) + exact-rational model/implementation correspondence + reversal and input-immutability oracles on the real code'
